@@ -15,7 +15,7 @@
    (every merge: raw path and every meetup maximum) and by end-to-end runs over residue compositions, lengths,
    copy numbers, types and thread counts (DESIGN C08). *)
 From Coq Require Import ZArith List Bool Lia.
-From KV Require Import Base FP Params Weave WeaveProofs WeaveCheck DupProofs Kernels Pipeline ExactDiag ExactDiagInst ExactDiagProf ExactDiagRun.
+From KV Require Import Base FP Params Weave WeaveProofs WeaveCheck DupProofs Kernels Pipeline ExactDiag ExactDiagInst ExactDiagProf ExactDiagRun ExactDiagBuiltin.
 Import ListNotations.
 
 (* the raw path 1, 2, .., L against a side of length L is expanded by add_gap_info_to_path_n to L match
